@@ -221,12 +221,10 @@ def leaderFirst (c : Cluster) (tps : List (String × List Int)) : Except RouteEr
   | [] => .error .panic
   | (_, []) :: _ => .error .panic
   | (tn, p :: _) :: _ =>
-    match ((lookupD c.topics tn Topic.zero).partitions.find? (fun e => e.2.id == p)) with
-    | some e =>
-      match c.brokers.lookup e.2.leader with
-      | some b => .ok b.id
-      | none => .ok (-1)
-    | none => .ok (-1)
+    -- the scan and the leader lookup are regenerated from the source (`Gen.Routing.listOffsetsBroker`)
+    .ok (KV.Gen.Routing.listOffsetsBroker
+      (((lookupD c.topics tn Topic.zero).partitions.find? (fun e => e.2.id == p)).map (·.2.leader))
+      (fun id => (c.brokers.lookup id).map (·.id)) Broker.zero.id)
 
 /-- `return cluster.Brokers[cluster.Controller], nil` -/
 def controllerBroker (c : Cluster) : Int := (lookupD c.brokers c.controller Broker.zero).id
